@@ -16,7 +16,7 @@ RULE = ("file alphabet: 5 single files with the same columns (3 / 1 / 0 / 3 / 4 
         "the working directory, './'-prefixed, bare names in the working directory} x shapes flat / hive / two-level hive "
         "(verify=False in quick, both in thorough); memory file-system with three spellings x {fs=, open_with=}. Directory content: the five files plus stray non-Parquet files, a "
         "_common_metadata and one '.parq' file; every directory holding a subset of 1..3 of the files. Sub-datasets "
-        "{plain, partitioned, categorical, directory of single files summarised by merge() through the fast and the legacy path} x {paths, objects, merge} x verify x root, lists of 2..3; lists mixing files and "
+        "{plain, partitioned in key=value directories, partitioned in plainly named directories, categorical, directory of single files summarised by merge() through the fast and the legacy path} x {paths, objects, merge} x verify x root, lists of 2..3; lists mixing files and "
         "sub-datasets. Schema-incompatible file (7 kinds: one dtype, one name, one extra column, column order, text/bytes, "
         "everything) at every position x {paths, objects, merge() default, directory, glob} under verification (must raise). "
         "Categorical label unions of 127 / 128 / 300 labels (quick) and 32768 / 40000 (thorough) from files below each width; "
@@ -95,7 +95,7 @@ def points(tier):
                 pts.append({"shape": shape, "entry": entry, "verify": verify, "root": "inferred", "maxlen": 3,
                             "dirvar": "subsets"})
     # sub-datasets
-    for kind in ("plain", "part", "cat", "merged"):
+    for kind in ("plain", "part", "cat", "merged", "part_plain"):
         for entry in ("paths", "objects", "merge"):
             for verify in (False, True):
                 for root in ("inferred", "given"):
@@ -449,11 +449,13 @@ def run_sub(p):
             lab = [labels[i][j % 2] for j in range(3)]
             data["c"] = pd.Categorical(lab, categories=labels[i])
             rows = [r + (l,) for r, l in zip(rows, lab)]
-        if kind == "part":
+        if kind in ("part", "part_plain"):
             data["p"] = [1, 2, 1]
             rows = [r + (pv,) for r, pv in zip(rows, [1, 2, 1])]
             rows = sorted(rows, key=lambda r: r[-1])      # one directory per value, in the order of the values
             kw = {"partition_on": ["p"]}
+        # part: the sub-datasets lie in key=value directories themselves; part_plain: in plainly named ones, so
+        # that the paths below the common root mix a plain level with a key=value level
         name = ("y=%d" if kind == "part" else "sub%d") % i
         path = os.path.join(top, name)
         if kind == "merged":
@@ -470,7 +472,7 @@ def run_sub(p):
         else:
             fastparquet.write(path, pd.DataFrame(data), file_scheme="hive", write_index=False, **kw)
         subs.append((path, rows, i))
-    cols = ["a", "s"] + (["c"] if kind == "cat" else []) + (["p"] if kind == "part" else [])
+    cols = ["a", "s"] + (["c"] if kind == "cat" else []) + (["p"] if kind in ("part", "part_plain") else [])
     sigs = {}
     detail = [""]
     datasets = 0
@@ -506,7 +508,7 @@ def run_sub(p):
                 continue
             datasets += 1
             exp = [r for i in lst for r in subs[i][1]]
-            if kind == "part":
+            if kind in ("part", "part_plain"):
                 rows = [r[:-1] + (int(r[-1]) if isinstance(r[-1], str) and r[-1].isdigit() else r[-1],) for r in rows]
             if pf.count() != len(exp) or pf.fmd.num_rows != len(exp):
                 bad("row_count", "%s: count()=%r, footer num_rows=%r, the sub-datasets hold %d" % (what, pf.count(), pf.fmd.num_rows, len(exp)))
